@@ -24,8 +24,7 @@ PRECOND_RX = re.compile(
     r"vec::Vec(<.*>)?::(remove|swap_remove|insert|split_off|drain)$|VecDeque(<.*>)?::(remove|insert|drain|split_off|swap)$|"
     r"str::(<impl str>::)?(split_at|split_at_mut)$|string::String::(remove|insert|insert_str|split_off|drain|truncate)$|"
     r"num::(<impl \w+>::)?(pow|ilog2|ilog10|div_euclid|rem_euclid|abs|next_power_of_two)$|"
-    r"cell::RefCell(<.*>)?::(borrow|borrow_mut)$|time::Instant::(sub|add|duration_since)$|"
-    r"array::(<impl .*>::)?try_from$")
+    r"cell::RefCell(<.*>)?::(borrow|borrow_mut)$|time::Instant::(sub|add|duration_since)$")
 ALLOC_RX = re.compile(
     r"vec::Vec(<.*>)?::(with_capacity|resize|reserve|reserve_exact)$|vec::from_elem$|"
     r"(bytes::)?BytesMut::(zeroed|with_capacity|resize|reserve)$|VecDeque(<.*>)?::(with_capacity|reserve)$|"
